@@ -617,6 +617,12 @@ impl Recv {
                             .recv_flow
                             .dec_recv_window(dec)
                             .map_err(proto::Error::library_go_away)?;
+
+                        // Capacity the user already released may now be above
+                        // the (smaller) window's update threshold.
+                        if stream.recv_flow.unclaimed_capacity().is_some() {
+                            self.pending_window_updates.push(&mut stream);
+                        }
                         Ok::<_, proto::Error>(())
                     })?;
                 }
